@@ -1,5 +1,5 @@
 """Per-property configuration: theorem modules, case generators, owned oracles."""
-import os, json, hashlib, collections
+import os, json, hashlib, collections, re
 import gen as G, run as R, trace as T
 
 VERIF = "/verif"
@@ -70,6 +70,68 @@ def raw_after_ops(tier, mode):
                 out.append(G.case("rawopA-%s-%d" % (cls, k), cls, mode, ["with_alignment v0 3 %d" % a, "push v0 1", "push v0 2", op, "raw_part v0", "push v0 5", "raw_parts v0"])); k += 1
     return out
 
+def panic_prefix_cases(mode):
+    """a growing loop whose k-th callback panics (generator of resize_with, next() of the extend source, Clone of
+    extend_from_slice): like Vec, the elements produced before the panic stay (oracle `panic-prefix`). The operation
+    under test is the first one of the case that calls user code."""
+    out = []
+    n = 0
+    for cls in ("w4", "s16", "b1", "p4"):
+        for label, pre in G.start_states(cls):
+            l0 = {"sentinel": 0, "zero": 0, "empty": 0, "part": 3, "over64": 2, "over64zero": 0, "dups": 7}.get(label, 4 if cls != "b1" else 8)
+            if label == "full":
+                l0 = 8 if cls == "b1" else (4 if cls != "big" else 2)
+            for op in ("resize_with v0 %d g[1,2,3,4,5,6]" % (l0 + 6), "extend v0 it[1,2,3,4,5,6]", "extend_from_slice v0 1 2 3 4 5 6"):
+                for k in range(1, 8):
+                    out.append(G.case("pp-%s-%s-%d-p%d" % (cls, label, n, k), cls, mode, pre + [op, "push v0 7", "pop v0"], ["!panic_at %d" % k]))
+                n += 1
+    return out
+
+def panic_prefix_oracle(ops, text):
+    """Vec semantics of a growing loop interrupted by a panic in its k-th callback: k - 1 new elements stay"""
+    name = text.split("\n", 1)[0].split()[1] if text.startswith("!case") else ""
+    if not name.startswith("pp-"):
+        return []
+    m = re.search(r"^!panic_at (\d+)$", text, re.M)
+    if not m:
+        return []
+    k = int(m.group(1))
+    for i, op in enumerate(ops):
+        if op.name in ("resize_with", "extend", "extend_from_slice"):
+            if op.result != "panic":
+                return []
+            (before, _) = T.state_before(ops, i, "v0")
+            after = op.S.get("v0")
+            if before is None or after is None:
+                return []
+            a = op.args
+            if op.name == "resize_with":
+                vals = a[2][2:-1].split(",")
+            elif op.name == "extend":
+                vals = a[1][3:-1].split(",")
+            else:
+                vals = a[1:]
+            want = [x.split(":")[1] for x in before[2]] + vals[:k - 1]
+            got = [x.split(":")[1] for x in after[2]]
+            if got != want:
+                return [("panic-prefix", i, "`%s` interrupted by a panic in its callback no. %d: Vec keeps the %d elements produced before it; got %s want %s" % (op.line, k, k - 1, got, want))]
+            return []
+    return []
+
+def views_cases(mode):
+    """the borrowed views (Deref, AsRef, Borrow, Index, as_slice, &v / &mut v iteration, Cow) after every single
+    operation on every start state and element class; IntoIter's slice views after steps"""
+    out = []
+    k = 0
+    for cls in G.CLASSES:
+        for label, pre in G.start_states(cls):
+            out.append(G.case("vw-%s-%s-%d" % (cls, label, k), cls, mode, pre + ["views v0"])); k += 1
+            for op in G.mutating_ops(args=[0, 1, 5]):
+                out.append(G.case("vw-%s-%s-%d" % (cls, label, k), cls, mode, pre + [op, "views v0", "push v0 9", "views v0"])); k += 1
+            for steps in ([], ["next it"], ["next_back it"], ["next it", "next_back it", "next it"], ["nth it 9"]):
+                out.append(G.case("vwi-%s-%s-%d" % (cls, label, k), cls, mode, pre + ["into_iter v0 it"] + steps + ["iter_views it", "drop it"])); k += 1
+    return out
+
 def huge_cases(mode):
     """C09: counts near the representable limits for every size-taking entry point"""
     out = []
@@ -88,6 +150,9 @@ def huge_cases(mode):
             out.append(G.case("huge-%s-%d" % (cls, k), cls, mode, ["with_capacity v0 %d" % n, "push v0 9", "spare v0"])); k += 1
             for a in (8, 64, 4096, 1 << 20, 1 << 40, 1 << 62, 1 << 63):
                 out.append(G.case("huge-%s-%d" % (cls, k), cls, mode, ["with_alignment v0 %d %d" % (n, a), "push v0 9"])); k += 1
+        # capacity 0 with an alignment whose padded header alone cannot be had: must be refused loudly, not skipped
+        for a in (64, 4096, 1 << 20, 1 << 31, 1 << 40, 1 << 48, 1 << 62, 1 << 63):
+            out.append(G.case("huge-%s-%d" % (cls, k), cls, mode, ["with_alignment v0 0 %d" % a, "push v0 9", "spare v0"])); k += 1
         # growth boundary of push / insert and the element-creating entry points with sizes that must be refused before anything is created
         for n in (M, I + 1, M // sz + 1, I // sz + 1):
             out.append(G.case("huge-%s-%d" % (cls, k), cls, mode, ["macro_list v0 1", "resize v0 %d 5" % n, "push v0 9"])); k += 1
@@ -221,6 +286,27 @@ def allocfail_sweep(tier, seed, mode):
         out += rename(with_directive(base, "!allocfail_at %d" % k), "-a%d" % k)
     return out
 
+def empty_with_capacity_cases(mode):
+    """C18: a vector that is empty but owns a block (never filled, cleared, drained, popped empty, emptied by append),
+    natural and over-aligned, then every operation that has to get a bigger block, with that very request refused"""
+    out = []
+    k = 0
+    for cls in ("w4", "s16", "b1", "a32"):
+        pres = [["with_capacity v0 4"], ["with_alignment v0 4 64"], ["macro_list v0 1 2 3", "clear v0"], ["macro_list v0 1 2 3", "truncate v0 0"],
+                ["macro_list v0 1 2", "drain v0 U U it", "drop it"], ["macro_list v0 1", "pop v0"], ["macro_list v0 1 2", "new c", "append c v0"],
+                ["macro_list v0 1 2 3", "into_iter v0 it", "drop it", "with_capacity v0 2"]]
+        ops = ["reserve v0 40", "reserve_exact v0 40", "extend_from_slice v0 " + " ".join(str(i % 7) for i in range(20)), "resize v0 30 5",
+               "resize_with v0 30 g[1,2,3]", "extend v0 it[" + ",".join(str(i % 7) for i in range(20)) + "]",
+               "macro_list c " + " ".join(str(i % 7) for i in range(20)) + "|append v0 c", "splice v0 U U it[" + ",".join(str(i % 7) for i in range(20)) + "] sp|drop sp",
+               "shrink_to_fit v0|push v0 1"]
+        for pre in pres:
+            base_allocs = 1 + sum(1 for l in pre if l.startswith(("macro_list", "with_capacity", "with_alignment")) ) 
+            for op in ops:
+                for a in range(1, 7):
+                    out.append(G.case("ewc-%s-%d-a%d" % (cls, k, a), cls, mode, pre + op.split("|") + ["push v0 9"], ["!allocfail_at %d" % a]))
+                k += 1
+    return out
+
 def sentinel_sweep(mode):
     out = []
     k = 0
@@ -231,6 +317,9 @@ def sentinel_sweep(mode):
                 out.append(G.case("sent-%s-%d" % (cls, k), cls, mode, ctor + [op, "push v0 9"])); k += 1
             for seq in G.two_reg_ops() + G.iter_ops():
                 out.append(G.case("sent-%s-%d" % (cls, k), cls, mode, ctor + list(seq))); k += 1
+            # a never-allocated vector against empty vectors that own storage: equal, same order, same hash
+            for other in (["with_capacity e 4"], ["macro_list e 1", "pop e"], ["macro_list e 1 2", "clear e", "shrink_to_fit e"], ["new e"]):
+                out.append(G.case("sent-%s-%d" % (cls, k), cls, mode, ctor + other + ["compare v0 e", "compare e v0", "views v0", "serialize v0"])); k += 1
             out.append(G.case("sent-%s-%d" % (cls, k), cls, mode, ctor + ["leak v0"])); k += 1
             out.append(G.case("sent-%s-%d" % (cls, k), cls, mode, ctor + ["from_str 0", "from_str 3", "push v0 1"])); k += 1
             out.append(G.case("sent-%s-%d" % (cls, k), cls, mode, ctor + ["forget v0"])); k += 1
@@ -247,6 +336,18 @@ def forget_cases(tier, seed, mode):
             for seq in G.iter_ops():
                 if any(x.startswith("forget") for x in seq):
                     out.append(G.case("fg-%s-%s-%d" % (cls, label, k), cls, mode, pre + list(seq) + ["pop v0", "clear v0"])); k += 1
+    # a DrainFilter whose predicate panics at its j-th call; the caller catches the panic, polls again, then forgets
+    # (or drops) the iterator: whatever the vector still exposes must be live
+    for cls in ("w4", "s16", "b1"):
+        for label, pre in G.start_states(cls):
+            if label in ("sentinel", "zero", "empty", "over64zero"):
+                continue
+            for pred in ("seqTFTTFT", "seqFTTFTT", "mod2=0", "seqTTTTTT"):
+                for j in range(1, 6):
+                    for fin in ("forget it", "drop it"):
+                        out.append(G.case("fgp-%s-%s-%d-p%d" % (cls, label, k, j), cls, mode,
+                                          pre + ["drain_filter v0 %s it" % pred, "next it", "next it", "next it", fin, "push v0 7", "pop v0", "clear v0"],
+                                          ["!panic_at %d" % j])); k += 1
     return out
 
 def iterator_cases(tier, seed, mode):
@@ -290,6 +391,14 @@ def clone_cases(tier, seed, mode):
                     for tail in (["drop it", "as_slice j", "next j", "next_back j", "drop j"], ["drop j", "next it", "as_slice it", "drop it"],
                                  ["next j", "next it", "next_back j", "as_slice it", "as_slice j"]):
                         out.append(G.case("cli-%s-%s-%d" % (cls, label, k), cls, mode, pre + ["into_iter v0 it"] + steps + ["clone_iter it j"] + tail)); k += 1
+            # Clone::clone_from between two IntoIters: the target stepped from either end, sources shorter / longer than
+            # what the target has left and than its capacity
+            for src in (["new c"], ["macro_list c 40 41"], ["macro_list c 40 41 42 43 44 45 46 47 48 49"], ["with_capacity c 9", "extend c it[40,41,42,43]"]):
+                for tsteps in ([], ["next it"], ["next it", "next it"], ["next_back it"], ["next it", "next_back it"]):
+                    for ssteps in ([], ["next j"], ["next_back j"]):
+                        out.append(G.case("clfi-%s-%s-%d" % (cls, label, k), cls, mode,
+                                          pre + src + ["into_iter v0 it", "into_iter c j"] + tsteps + ssteps +
+                                          ["clone_from_iter it j", "as_slice it", "as_slice j", "next it", "next_back it", "iter_views it", "drop j", "as_slice it", "next it", "drop it"])); k += 1
     return out
 
 def raw_cases(tier, seed, mode):
@@ -574,29 +683,29 @@ def general(tier, seed, pid, modes=("debug",)):
     return [(m, corpus(m, pid) + general_cases(tier, seed, m)) for m in modes]
 
 PROPS = {
-    "C01": {"modules": ["MiniVecProof.Props.C01", "MiniVecProof.Props.C01Loops", "MiniVecProof.Props.C01Ctors", "MiniVecProof.Props.C01Append", "MiniVecProof.Props.C01SplitOff", "MiniVecProof.Props.C01MacroRepeat", "MiniVecProof.Props.C01ExtendWithin", "MiniVecProof.Props.C17RemoveItem", "MiniVecProof.Props.C12CloneFrom", "MiniVecProof.Props.C12IntoIter", "MiniVecProof.Props.C10DrainFilter", "MiniVecProof.Props.C10Splice"],
-            "cases": lambda tier, seed: general(tier, seed, "C01") + [("release", boundary_grid("release"))],
-            "owned_oracles": ["O vec-mismatch", "macro-evals", "X signal"], "owned_diffs": ["result", "contents", "panic", "crash"],
-            "partial_missing": ["refinement to Vec semantics proved for every history over push, pop, insert, remove, swap_remove, truncate, clear, retain (any predicate), reserve, reserve_exact, shrink_to, shrink_to_fit (C01_refines_vec_partial); separately proved value-for-value: extend_from_slice, resize, resize_with (any generator) (C01Loops), From<&[T]> (C01_from_slice_partial), clone, extend/collect, dedup*, Drain, IntoIter, DrainFilter (any predicate); append, split_off, drain_vec, mini_vec![a, b, c], splice (any replacement iterator), extend_from_within, remove_item (any equality), mini_vec![e; n], clone_from; the remaining conversions (From<Vec>, From<Box<[T]>>, From<&str>, Borrow/AsRef/Deref views, io::Write) are tied to Vec and to the model by the three-way correspondence only"]},
+    "C01": {"modules": ["MiniVecProof.Props.C01", "MiniVecProof.Props.C01Histories", "MiniVecProof.Props.C01Loops", "MiniVecProof.Props.C01Ctors", "MiniVecProof.Props.C01Append", "MiniVecProof.Props.C01SplitOff", "MiniVecProof.Props.C01MacroRepeat", "MiniVecProof.Props.C01ExtendWithin", "MiniVecProof.Props.C17RemoveItem", "MiniVecProof.Props.C12CloneFrom", "MiniVecProof.Props.C12IntoIter", "MiniVecProof.Props.C10DrainFilter", "MiniVecProof.Props.C10Splice"],
+            "cases": lambda tier, seed: [(m, c + views_cases(m) + panic_prefix_cases(m) + clone_glue_cases(m)) for m, c in general(tier, seed, "C01")] + [("release", boundary_grid("release") + views_cases("release"))],
+            "owned_oracles": ["O vec-mismatch", "O view-mismatch", "O ledger duplicate-id", "O ledger bitwise-copy", "panic-prefix", "macro-evals", "X signal"], "owned_diffs": ["result", "contents", "panic", "crash"],
+            "partial_missing": ["refinement to Vec semantics proved for every history over push, pop, insert, remove, swap_remove, truncate, clear, retain (any predicate), reserve, reserve_exact, shrink_to, shrink_to_fit (C01_refines_vec_partial); separately proved value-for-value: extend_from_slice, resize, resize_with (any generator) (C01Loops), From<&[T]> (C01_from_slice_partial), clone, extend/collect, dedup*, Drain, IntoIter, DrainFilter (any predicate); append, split_off, drain_vec, mini_vec![a, b, c], splice (any replacement iterator), extend_from_within, remove_item (any equality), mini_vec![e; n], clone_from; C01_histories_partial composes them over EVERY history of 25 operation kinds incl. the three borrowing iterators created, stepped and dropped; From<&str>, Cow, the Borrow/AsRef/Deref/Index views are tied to Vec and to the model by the correspondence only (views oracle)"]},
     "C02": {"modules": ["MiniVecProof.Props.C02", "MiniVecProof.Props.C10", "MiniVecProof.Props.C10IntoIter", "MiniVecProof.Props.C10DrainFilter"],
             "cases": lambda tier, seed: [(m, c + raw_natural_cases(m) + serde_error_cases(m)) for m, c in general(tier, seed, "C02")],
             "owned_oracles": ["O ledger", "X signal"], "owned_diffs": ["own", "crash"],
             "partial_missing": ["exactly-once destruction and conservation proved for every completed history over the 12 operations of POp (incl. retain with any predicate) followed by Drop (C02_exactly_once_partial, C02_no_double_drop, C02_no_leak); for Drain and IntoIter dropped after any interleaving of steps: yielded front ++ destroyed ++ yielded back reversed = the selected range (specSteps_partition + C10_drain_partial / C10_into_iter_partial); DrainFilter: yielded ++ destroyed = accepted, vector = rejected (C10_drain_filter_partial); Splice and the remaining operations by correspondence + per-element ledger"]},
-    "C03": {"modules": ["MiniVecProof.Props.C01", "MiniVecProof.Proofs.MemDrop", "MiniVecProof.Props.C09"],
+    "C03": {"modules": ["MiniVecProof.Props.C01", "MiniVecProof.Proofs.MemDrop", "MiniVecProof.Props.C09", "MiniVecProof.Props.C03World"],
             "cases": lambda tier, seed: [(m, c + huge_cases(m) + raw_natural_cases(m)) for m, c in general(tier, seed, "C03", modes=("debug", "release"))],
             "owned_oracles": ["O alloc", "O cap"], "owned_diffs": ["alloc", "ub", "crash"],
-            "partial_missing": ["layout quoting proved for grow (every caller), Drop and IntoIter::drop; in-bounds access proved for the 11 operations of POp, Drain and IntoIter (every step and drop), clone, retain scan; others by correspondence + checking allocator"]},
+            "partial_missing": ["layout quoting proved for grow (every caller), Drop and IntoIter::drop; C03_world_histories_partial: for every history of 56 operations of the register machine on any number of registers (all four iterators alive across other operations, two-vector operations, serde, raw round trips) every register stays well formed and no step is an illegal access, a failed assertion or a hang (non-panicking callbacks); not in that theorem: with_alignment, compare, spare/split_spare, from_str, extend_ref, count, clone_from_iter: correspondence + checking allocator"]},
     "C04": {"modules": ["MiniVecProof.Props.C04", "MiniVecProof.Props.C04Drain", "MiniVecProof.Props.C04IntoIter", "MiniVecProof.Props.C04DrainFilter", "MiniVecProof.Props.C01"],
-            "cases": lambda tier, seed: [("debug", corpus("debug", "C04") + panic_sweep(tier, seed, "debug"))],
-            "owned_oracles": ["O ledger", "O alloc", "X signal"], "owned_diffs": ["own", "contents", "result", "panic", "alloc", "ub", "crash"],
-            "partial_missing": ["proved under an ARBITRARY panic oracle (any subset of the callbacks may panic): truncate, clear (C04_truncate_partial, C04_clear_partial: length cut before the first destructor, every doomed element destroyed once unless the double-panic abort) and retain with a panicking predicate or destructor (C04_retain_partial: what is exposed plus what was destroyed is a rearrangement of the contents); drop_in_place semantics dropAll_any; the drop guard of Drain (C04_drain_drop_partial: a destructor panic while the Drain is dropped — the guard destroys the rest and moves the tail back, a second panic is the abort) and Drop for IntoIter (C04_into_iter_drop_partial); DrainFilter::next with a panicking predicate at any point of the scan (C04_drain_filter_partial: the guard moves the unscanned rest back, the vector exposes kept ++ unscanned and nothing was destroyed); every other callback site (the Splice drop guard, a destructor panic while a DrainFilter is dropped, clone, extend, dedup_by, resize_with, serde) is decided by the exhaustive crash-point sweep of the correspondence"]},
+            "cases": lambda tier, seed: [("debug", corpus("debug", "C04") + panic_sweep(tier, seed, "debug") + panic_prefix_cases("debug"))],
+            "owned_oracles": ["O ledger", "O alloc", "X signal", "panic-prefix"], "owned_diffs": ["own", "contents", "result", "panic", "alloc", "ub", "crash"],
+            "partial_missing": ["proved under an ARBITRARY panic oracle (any subset of the callbacks may panic): truncate, clear (C04_truncate_partial, C04_clear_partial: length cut before the first destructor, every doomed element destroyed once unless the double-panic abort) and retain with a panicking predicate or destructor (C04_retain_partial: what is exposed plus what was destroyed is a rearrangement of the contents); drop_in_place semantics dropAll_any; the drop guard of Drain (C04_drain_drop_partial: a destructor panic while the Drain is dropped — the guard destroys the rest and moves the tail back, a second panic is the abort) and Drop for IntoIter (C04_into_iter_drop_partial); DrainFilter::next with a panicking predicate at any point of the scan (C04_drain_filter_partial: the guard moves the unscanned rest back, the vector exposes kept ++ unscanned and nothing was destroyed); dropping a DrainFilter with any predicate call or destructor panicking (C04_drain_filter_drop_partial: never an abort, every unscanned element exposed or destroyed exactly once); every other callback site (the Splice drop guard, clone, extend, dedup_by, resize_with, serde) is decided by the exhaustive crash-point sweep of the correspondence"]},
     "C05": {"modules": ["MiniVecProof.Props.C05", "MiniVecProof.Props.C05Iters"],
             "cases": lambda tier, seed: [("debug", corpus("debug", "C05") + forget_cases(tier, seed, "debug") + soak(tier, seed, "debug", "C05"))],
             "owned_oracles": ["O ledger", "O alloc", "X signal"], "owned_diffs": ["own", "contents", "result", "ub", "crash"],
             "partial_missing": ["proved: Drain (C05_drain_forget), Splice (C05_splice_forget) and DrainFilter with any predicate (C05_drain_filter_forget) after ANY steps: the vector left behind exposes only the untouched prefix / nothing; IntoIter owns its vector, forgetting it leaks everything (nothing stays observable): correspondence only"]},
     "C06": {"modules": ["MiniVecProof.Props.C06"],
             "cases": lambda tier, seed: [("debug", corpus("debug", "C06") + sentinel_sweep("debug") + soak(tier, seed, "debug", "C06", n=4000)), ("release", corpus("release", "C06") + sentinel_sweep("release"))],
-            "owned_oracles": ["X signal", "O ledger", "O alloc", "O vec-mismatch", "sentinel-noalloc"], "owned_diffs": ["result", "contents", "panic", "alloc", "own", "ub", "crash", "cap"]},
+            "owned_oracles": ["X signal", "O ledger", "O alloc", "O vec-mismatch", "O view-mismatch", "O cmp-slice-mismatch", "sentinel-noalloc"], "owned_diffs": ["result", "contents", "panic", "alloc", "own", "ub", "crash", "cap"]},
     "C07": {"modules": ["MiniVecProof.Props.C07", "MiniVecProof.Props.C07Stable", "MiniVecProof.Props.C01"],
             "cases": lambda tier, seed: [(m, c + growth_cases(m) + fit_cases(m)) for m, c in general(tier, seed, "C07", modes=("debug", "release"))],
             "owned_oracles": ["O cap", "reserve-contract", "stable", "log-resizes"], "owned_diffs": ["cap", "alloc"],
@@ -614,7 +723,7 @@ PROPS = {
     "C10": {"modules": ["MiniVecProof.Props.C10", "MiniVecProof.Props.C10IntoIter", "MiniVecProof.Props.C10DrainFilter", "MiniVecProof.Props.C10Splice", "MiniVecProof.Props.C06"],
             "cases": lambda tier, seed: [("debug", corpus("debug", "C10") + iterator_cases(tier, seed, "debug") + lying_hint_cases("debug") + soak(tier, seed, "debug", "C10", n=12000)),
                                          ("release", boundary_grid("release"))],
-            "owned_oracles": ["O vec-mismatch", "X signal"], "owned_diffs": ["result", "contents", "ub", "crash", "panic"],
+            "owned_oracles": ["O vec-mismatch", "O view-mismatch", "X signal"], "owned_diffs": ["result", "contents", "ub", "crash", "panic"],
             "partial_missing": ["proved for Drain on every storage state (C10_drain_partial): every interleaving of front/back steps yields what the list iterator over es[st..en] yields, exact counts, None for ever after the ends meet, vector untouched by steps, and drop leaves prefix ++ suffix destroying exactly the unyielded elements; proved for IntoIter on every storage state (C10_into_iter_partial): same protocol, exact len(), as_slice() = unyielded elements, drop destroys exactly those and frees the block with its layout; proved for DrainFilter with ANY predicate (C10_drain_filter_partial, C10_drain_filter_default): any number of next() calls yields the accepted elements in order, drop leaves exactly the rejected ones; proved for Splice with ANY replacement iterator (C10_splice_partial, C10_splice_default): steps are those of its embedded Drain, drop leaves prefix ++ (items before the first None) ++ suffix through every path of the drop guard (gap closed, tail moved up after growing); remaining: yielded sequences and counts checked against std's iterators and the model by correspondence only"]},
     "C11": {
         "modules": ["MiniVecProof.Props.C11"],
@@ -642,7 +751,7 @@ PROPS = {
             "owned_diffs": ["result", "contents", "alloc", "own", "cap", "panic", "ub", "crash"],
             "partial_missing": ["(a) C19_deserialize_partial / C19_round_trip_partial, (b)+(d) C19_deserialize_in_place_partial are proved on the hand model Model/Serde.lean for ANY scripted SeqAccess (values, an element error anywhere, an early Ok(None) followed by more items) and ANY claimed length; (c) on regenerated code. The hand model of src/serde.rs and of Serialize is tied to the code by the correspondence (std Vec's own serde impl as shadow) only"]},
     "C18": {"modules": ["MiniVecProof.Props.C18"],
-            "cases": lambda tier, seed: [("debug", allocfail_sweep(tier, seed, "debug")), ("release", allocfail_sweep(tier, seed, "release"))],
+            "cases": lambda tier, seed: [("debug", allocfail_sweep(tier, seed, "debug") + huge_cases("debug") + empty_with_capacity_cases("debug")), ("release", allocfail_sweep(tier, seed, "release") + empty_with_capacity_cases("release"))],
             "owned_oracles": ["X signal", "allocfail-outcome", "O alloc"], "owned_diffs": ["alloc", "panic", "result", "crash", "ub"]},
 }
 
@@ -737,7 +846,7 @@ def correspondence(pid, tier, seed, model_ok=True):
                         found.append((o.split()[1] if o.startswith("O ") else o.split()[0] + "-" + "-".join(o.split()[1:3]), i, o))
                     elif o.startswith("O "):
                         other_oracles[" ".join(o.split()[:2])] += 1
-            for kind, i, textv in T.orchestrator_oracles(ops, SIZES.get(cls, 4), {"a32": 32, "a16": 16}.get(cls, 8)):
+            for kind, i, textv in T.orchestrator_oracles(ops, SIZES.get(cls, 4), {"a32": 32, "a16": 16}.get(cls, 8)) + panic_prefix_oracle(ops, text):
                 if kind in P.get("owned_oracles", []):
                     found.append((kind, i, textv))
                 else:
